@@ -804,6 +804,19 @@ def show_val(t, v):
     return str(v)
 
 
+def is_zst(t):
+    """a zero-sized component (`()`, tuples of such): it has no address of its own - two of them, or one and its
+    neighbour, may share one - so a reference to it cannot be located by address; only its type is checked"""
+    return isinstance(t, tuple) and all(is_zst(x) for x in t)
+
+
+def wild_zst(kind, tys, vals):
+    """for reference kinds, the position of a zero-sized component is a wildcard"""
+    if kind == "owned" or vals is None:
+        return vals
+    return ["zst" if is_zst(t) else v for t, v in zip(tys, vals)]
+
+
 def show_vals(tys, vals):
     return ",".join(show_val(t, v) for t, v in zip(tys, vals))
 
@@ -1442,6 +1455,7 @@ def rt_into(case, cid, impls, rng, mode=None, orig=None):
         mv = eval_value(d["sem"], {}, mlog) if d["sem"] is not None else None
         if mv is not None and not isinstance(mv, list):
             mv = [mv]
+        mv = wild_zst(kind, tys, mv)
         m_exp = None if mv is None else "%s|%s" % (show_vals(tys, mv), ",".join(mlog))
         if kind == "owned":
             tsrc = into_target_src(kind, tys)
@@ -1469,7 +1483,11 @@ def rt_into(case, cid, impls, rng, mode=None, orig=None):
                 c, sub = cands(t)
                 pre.append("let c%d = %s;" % (i, c))
                 acc = "t" if m == 1 else "t.%d" % i
-                post.append("format!(\"{}%s\", hit(ad(&*%s), &c%d))" % (sub, acc, i))
+                if is_zst(t):
+                    # the type annotation of `t` already checks that this component is a reference to that type
+                    post.append("{ let _ = &*%s; \"zst\".to_string() }" % acc)
+                else:
+                    post.append("format!(\"{}%s\", hit(ad(&*%s), &c%d))" % (sub, acc, i))
             vals = "[%s].join(\",\")" % ", ".join(post) if m else "String::new()"
             body.append("{ take_log(); let %ss = %s; %s let t: %s = From::from(&%ss); let o: String = %s; println!(\"%s\\t{}|{}\", o, take_log()); }"
                         % (mut, mk, " ".join(pre), tsrc, mut, vals, oid))
@@ -1502,6 +1520,7 @@ def rt_into(case, cid, impls, rng, mode=None, orig=None):
                         vals.append("%d.%s" % (i, mkk))
                     else:
                         vals.append(str(i))
+            vals = wild_zst(kind, [c for (_i, _f, c) in ocomps], vals)
             o_exp = "%s|%s" % (show_vals([c for (_i, _f, c) in ocomps], vals), ",".join(olog))
             break
         obs.append({"id": oid, "what": "value", "model": m_exp, "oracle": o_exp,
